@@ -17,6 +17,10 @@ FUNCS = {
     'wd': ['cc_wd', 'trans_wd'],
     'su': ['cc_sign_default', 'cc_sign_zhang', 'cc_sign_costantini'],
     'sdy': ['cc_sign_zhang', 'cc_sign_costantini'],
+    # generic (non perfect-cube) weights: float oracle at 1e-9, no cube-root model (zhang/costantini still go to the model)
+    'gwu': ['cc_wu', 'cc_wd', 'trans_wu', 'trans_wd', 'cc_sign_default', 'cc_sign_zhang', 'cc_sign_costantini'],
+    'gwd': ['cc_wd', 'trans_wd'],
+    'gsu': ['cc_sign_default', 'cc_sign_zhang', 'cc_sign_costantini'],
     # malformed stream (non-empty diagonal): no property claim, only model-vs-code correspondence
     'diag-u': ['cc_bu', 'cc_wu', 'trans_bu', 'trans_wu', 'cc_sign_default', 'cc_sign_zhang', 'cc_sign_costantini'],
     'diag-d': ['cc_bd', 'cc_wd', 'trans_bd', 'trans_wd'],
@@ -54,6 +58,25 @@ def oracle(name, W, R):
     raise KeyError(name)
 
 
+NEEDS_ROOT = {'cc_wu', 'cc_wd', 'trans_wu', 'trans_wd', 'cc_sign_default'}
+
+
+def float_oracle(name, W):
+    """generic real weights: expected values by float triple enumeration with (w1*w2*w3) ** (1/3) per triple"""
+    Wf = cc.fmat_float(W)
+    if name == 'cc_wu':
+        return [cc.fo_cc_und(Wf)]
+    if name == 'cc_wd':
+        return [cc.fo_cc_dir(Wf)]
+    if name == 'trans_wu':
+        return [[cc.fo_trans_und(Wf)]]
+    if name == 'trans_wd':
+        return [[cc.fo_trans_dir(Wf)]]
+    if name == 'cc_sign_default':
+        return [cc.fo_cc_und(cc.fmat_float(cc.pos_part(W))), cc.fo_cc_und(cc.fmat_float(cc.neg_part(W)))]
+    raise KeyError(name)
+
+
 def zero_nodes(name, W):
     """per output vector: the nodes for which the property demands exactly 0 (structural: < 2 neighbours or no triangle)"""
     n = len(W)
@@ -69,6 +92,9 @@ def zero_nodes(name, W):
     return None
 
 
+_TIMEOUTS = {}     # per worker process: function -> watchdog hits (a hanging routine must not stall the check)
+
+
 def run_case(case):
     bct = import_bct()
     W, R = cc.case_mats(case)
@@ -77,19 +103,23 @@ def run_case(case):
     binary = cc.is_bin(W)
     malformed = kind.startswith('diag')
     res = {'funcs': [], 'fails': [], 'tri': False, 'zeros': 0}
+    dyadic = all((x.denominator & (x.denominator - 1)) == 0 for row in W for x in row)
     for name in FUNCS[kind]:
-        if R is None and name not in ('cc_sign_zhang', 'cc_sign_costantini'):
-            continue
-        exact = binary or R is None
+        generic = R is None and name in NEEDS_ROOT      # no rational cube root: float oracle, no Lean line
+        exact = binary or (R is None and not generic and dyadic)
+        if _TIMEOUTS.get(name, 0) >= 2:
+            res['skipped'] = res.get('skipped', 0) + 1; continue
         st, out = cc.run_bct(bct, name, Wf)
-        res['funcs'].append((name, st, out, exact))
+        if st == 'timeout':
+            _TIMEOUTS[name] = _TIMEOUTS.get(name, 0) + 1
+        res['funcs'].append((name, st, out, exact, not generic))
         if malformed:
             continue
         if st == 'exc':
             res['fails'].append((name, 'raises', {'exception': out})); continue
         if st != 'ok':
             continue
-        exp = oracle(name, W, R if R is not None else W)
+        exp = float_oracle(name, W) if generic else oracle(name, W, R if R is not None else W)
         if name.startswith('trans_') and exp[0][0] is None:
             res['undef'] = res.get('undef', 0) + 1     # no connected triple: 0/0, no claim (the model still has to agree with the code)
             continue
@@ -101,7 +131,7 @@ def run_case(case):
             res['zeros'] += sum(len(z) for z in zn)
             if bad:
                 res['fails'].append((name, 'zero-case', {'nodes(vector,node,value)': bad[:5]}))
-        lo = -1.0 if name == 'cc_sign_costantini' and kind in ('su', 'sdy') else 0.0
+        lo = -1.0 if name == 'cc_sign_costantini' and kind in ('su', 'sdy', 'gsu') else 0.0
         eps = 0.0 if exact else cc.TOL
         vals = [x for v in out for x in v if x is not None]
         if name.startswith('cc_') and any(x is None for v in out for x in v):
@@ -157,6 +187,17 @@ def gen_cases(rs, tier):
         add('su', cc.rand_mat(rs, n, d, False, cc.ROOTS, signed=True, isolate=iso), 'rand-su')
         dy = [F(k, 8) for k in range(1, 9)]
         add('sdy', cc.rand_mat(rs, n, d, False, dy, signed=True, isolate=iso), 'rand-sdy', raw=True)
+    # generic weights (decimals / dyadics, not perfect cubes): float oracle only
+    G3 = (F(0), F(1, 2), F(3, 10))
+    allg = [('gwu', M) for M in cc.all_mats(3, False, G3)] + [('gwu', M) for M in cc.all_mats(4, False, (F(0), F(1, 2)))] + \
+           [('gwd', M) for M in cc.all_mats(3, True, G3)]
+    for x in (range(len(allg)) if thorough else rs.permutation(len(allg))[:250]):
+        add(allg[int(x)][0], allg[int(x)][1], 'exh-generic', raw=True)
+    for _ in range(nr):
+        n = int(rs.randint(4, nmax + 1)); d = float(rs.choice([.2, .35, .5, .7, .9])); iso = int(rs.choice([0, 0, 1]))
+        add('gwu', cc.rand_mat(rs, n, d, False, cc.GENERIC, isolate=iso), 'rand-gwu', raw=True)
+        add('gwd', cc.rand_mat(rs, n, d, True, cc.GENERIC, isolate=iso), 'rand-gwd', raw=True)
+        add('gsu', cc.rand_mat(rs, n, d, False, cc.GENERIC, signed=True, isolate=iso), 'rand-gsu', raw=True)
     # structured: triangle-free and extremal shapes
     for n in ((4, 6, 7, 9, 12) if thorough else (6, 9)):
         for tag, M in cc.structured(rs, n, False):
@@ -164,9 +205,12 @@ def gen_cases(rs, tier):
             Wt = [[x * cc.ROOTS[int(rs.randint(len(cc.ROOTS)))] for x in row] for row in M]
             Wt = [[Wt[min(i, j)][max(i, j)] for j in range(n)] for i in range(n)]
             add('wu', Wt, 'struct-w-' + tag)
+            Gt = [[x * cc.GENERIC[int(rs.randint(len(cc.GENERIC)))] for x in row] for row in M]
+            add('gwu', [[Gt[min(i, j)][max(i, j)] for j in range(n)] for i in range(n)], 'struct-g-' + tag, raw=True)
         for tag, M in cc.structured(rs, n, True):
             add('bd', M, 'struct-' + tag)
             add('wd', [[x * cc.ROOTS[int(rs.randint(len(cc.ROOTS)))] for x in row] for row in M], 'struct-w-' + tag)
+            add('gwd', [[x * cc.GENERIC[int(rs.randint(len(cc.GENERIC)))] for x in row] for row in M], 'struct-g-' + tag, raw=True)
     # malformed stream: non-empty diagonal (outside the property's domain; correspondence only)
     for _ in range(150 if thorough else 40):
         n = int(rs.randint(3, 7))
@@ -199,7 +243,7 @@ def main():
     else:
         cases = gen_cases(ck.rs, ck.tier)
     results = pmap(run_case, cases)
-    lines, meta = [], []
+    lines, meta, stat = [], [], {}
     for c, r in zip(cases, results):
         W, _ = cc.case_mats(c)
         n = len(W)
@@ -214,10 +258,19 @@ def main():
         for name, pred, info in r['fails']:
             if pred in PREDS:
                 ck.violation(cc.PUBLIC[name], pred, {'case': c, 'function': name, 'info': info}, {'function': name, 'kind': c['kind']})
-        for name, st, out, exact in r['funcs']:
+        ck.count('calls skipped after repeated timeouts', r.get('skipped', 0))
+        for name, st, out, exact, tolean in r['funcs']:
             ck.count('calls:' + name); ck.count('status:' + st)
-            if st == 'ok':
+            stat.setdefault(name, {'ok': 0, 'timeout': 0, 'exc': 0})[st] += 1
+            if st == 'ok' and tolean:
                 lines.append(cc.lean_line(name, W)); meta.append((c, name, out, exact))
+            elif st == 'ok':
+                ck.count('generic-weight calls (float oracle, no cube-root model)')
+    # a routine that (almost) never returns does not "return the values given by its definition"
+    for name, d in sorted(stat.items()):
+        tot = sum(d.values())
+        if d['timeout'] > max(2, tot // 100) or (tot >= 5 and d['ok'] == 0 and d['exc'] == 0):
+            ck.violation(cc.PUBLIC[name], 'raises', {'function': name, 'why': 'no result within the watchdog budget', 'calls': d}, {'function': name, 'kind': 'timeout'})
     # malformed: integer dtype (clustering_coef_bd stores np.inf into K) — outcome recorded, no claim
     bct = import_bct()
     st, out = call(bct.clustering_coef_bd, np.array([[0, 1, 1], [1, 0, 1], [1, 1, 0]]))
